@@ -184,6 +184,20 @@ class TDict(T):
         return getattr(self.sort(), "mk_" + self.key())(vals, has, keys)
 
 
+class TMap(T):
+    """Total map K -> V (ghost state): z3 Array K V.  m[k] reads, m[k] = v stores, no key obligations."""
+
+    def __init__(self, k, v):
+        self.k = k
+        self.v = v
+
+    def key(self):
+        return "Map_%s_%s" % (self.k.key(), self.v.key())
+
+    def sort(self):
+        return z3.ArraySort(self.k.sort(), self.v.sort())
+
+
 class TPy(T):
     """Python-level helper value with no SMT term (slice objects, functions, None literal, modules)."""
 
@@ -276,6 +290,9 @@ def parse_type(s):
         if n == "dict":
             k, v = args()
             return TDict(k, v)
+        if n == "map":
+            k, v = args()
+            return TMap(k, v)
         if n == "iter":
             (e,) = args()
             return TIter(e)
